@@ -102,6 +102,7 @@ def r02_2(ctx, run, rule='R02.2'):
     loops = natural_loops(b)
     ex = Explorer(b, max_paths=3000)
     classes = set()
+    helpers = set()
     for h in loops:
         for p in ex.explore(start=h, stop=set(loops)):
             if p.end[0] not in ('backedge', 'stop') or p.end[1] != h:
@@ -117,6 +118,9 @@ def r02_2(ctx, run, rule='R02.2'):
                         if x[0] == 'const' and isinstance(x[1], int):
                             eqs.append(x[1])
             classes.add((steps, ws, tuple(consts), tuple(sorted(eqs))))
+            for e in p.calls():
+                if local_callee(e) and canon(e[1]).split('::')[-1] not in ('step', 'step_by', 'error', 'skip_unused'):
+                    helpers.add(canon(e[1]).split('::')[-1])
     want = {(1, True, (), ()), (2, False, (92, 110), ()), (2, False, (92, 114), ()), (2, False, (92, 116), ()), (4, False, (92,), (48, 67, 120))}
     norm = set()
     for (steps, ws, consts, eqs) in classes:
@@ -129,6 +133,8 @@ def r02_2(ctx, run, rule='R02.2'):
     missing = wants - simple
     if not extra and not missing:
         run.proved(rule, b.path, 'whitespace-set', 'skips is_ascii_whitespace bytes (space, TAB, LF, FF, CR) and the escaped forms \\n \\r \\t \\x0C, nothing else', loc)
+    elif helpers:
+        run.undecided(rule, b.path, 'whitespace-set', f'the skipper looks at the input through helper(s) this rule does not read ({", ".join(sorted(helpers)[:3])}): which bytes it skips is not decided', loc)
     else:
         run.violation(rule, b.path, 'whitespace-set', f'the inter-token skipper also skips {sorted(extra)} / no longer skips {sorted(missing)} (steps, is_ascii_whitespace, byte values)', loc)
 
